@@ -121,7 +121,7 @@ CLAIMED['C13'] = dict(
         "against every real _update call of all 18 adaptive classes under forced histories (incl. a mid-run reset), which are also checked for "
         "direction and freezing directly.",
    note=NUM_NOTE + "Componentwise and full-covariance Andrieu-Thoms and the eigenvector covariance / mean recursion are modelled in AdaptM.v "
-        "(per-component direction, global direction, frozen for ever; the acceptance ratio of each virtual move is an oracle input scripted by "
+        "(per-component direction, global direction, frozen for ever; Sivia-Skilling with a full covariance widens / narrows in every direction as a quadratic form; the acceptance ratio of each virtual move is an oracle input scripted by "
         "the harness; numpy.linalg.eigh is not modelled, the eigenvalues are compared with eigh(cov)*exp(log_lambda) directly). Source tie "
         "(Props/C13_src.v): the window test of every _update, regenerated from /repo by tools/py2coq.py on every run, equals the model's for "
         "all inputs, and the translator refuses an _update that does anything outside its guarded block; the scalar arithmetic inside the windows "
